@@ -17,7 +17,7 @@ EXPLANATION = (
     "Decided: R28.1 enqueue's return expression equals try_push's result for both values (and try_push returns bool); R28.2 in "
     "Logger::operator() every path from the entry, and from each process_logline call, to the return passes a failed try_pop edge or "
     "the empty-string sentinel edge; each successful pop reaches release(); R28.3 stop(): request_stop ≺ enqueue(sentinel) ≺ join; "
-    "send(): enqueue only under is_loggable(level); `_sequence`/`_osequence` are written only in process_logline; R28.4 every line inserted into the log stream is flushed (endl/flush) before process_logline returns, or else the consumer flushes on every path from a written line to its return; R28.5 the second (outbound) counter is advanced only under the direction flag; R28.6 with `_stopping` false no return of the consumer thread is reachable (an accepted empty line is not a stop sentinel). NOT decided: "
+    "send(): enqueue only under is_loggable(level); `_sequence`/`_osequence` are written only in process_logline; R28.4 every line inserted into the log stream is flushed (endl/flush) before process_logline returns, or else the consumer flushes on every path from a written line to its return; R28.5 the second (outbound) counter is advanced only under the direction flag; R28.6 the consumer's stop test reads only a field of the popped element that no logged line can set to stop()'s marker (never the text); R28.7 no read of `_stopping` lies between a failed try_pop and the return. NOT decided: "
     "producer interleavings, queue internals (C30).")
 
 L = 'FIX8::Logger::'
@@ -55,14 +55,37 @@ def run(ctx):
     ctx.saw(op)
     cfg = op.cfg
     pops = q.branches(op, lambda a: a.is_call and a.callee is not None and a.callee.get('n') in ('try_pop',))
+
+    def reads_stop(a):
+        """the atom reads the stop flag, directly or through a local bool sampled from it"""
+        for x in a.walk():
+            if x.k == 'MemberExpr' and x.decl and x.decl.get('n') == '_stopping':
+                return True
+            if x.k == 'DeclRefExpr' and x.decl and x.decl.get('sc') == 'local':
+                for (dn, kind, val) in q.local_defs(op, x.declid):
+                    if val is not None and any(y.k == 'MemberExpr' and y.decl and y.decl.get('n') == '_stopping' for y in val.walk()):
+                        return True
+        return False
     ctx.need(len(pops) >= 1, 'try_pop decision not found in Logger::operator()')
-    sent = q.branches(op, lambda a: a.is_call and a.callee_qp == 'std::basic_string::empty' and
-                      any(x.k == 'MemberExpr' and x.decl and x.decl.get('n') == '_str' for x in a.walk()))
-    ctx.need(len(sent) == 1, 'sentinel test (_str.empty()) not found in Logger::operator()')
+    # the stop element test: a decision on a field of the popped element one of whose edges leaves the loop without processing the element
+    procs_all = op.calls_to(L + 'process_logline')
+    popv0 = {cfg.block_last[b] for (b, _a, _p) in pops}
+    procv0 = {cfg.vertex_of(c) for c in procs_all}
+    exits0 = {v for (v, kind, n) in cfg.exits() if kind in ('return', 'falloff')}
+    elem_fields = ('_str', '_fileline', '_val', '_level', '_tid', '_when')
+    sent = []
+    for (b, a, pol) in q.branches(op, lambda a: any(x.k == 'MemberExpr' and x.decl and x.decl.get('n') in elem_fields for x in a.walk())):
+        for truth in (True, False):
+            tg = q.atom_edge(cfg, (b, a, pol), truth)
+            if any((cfg.reach_from(t, avoid=popv0 | procv0) | {t}) & exits0 for t in tg):
+                sent.append(((b, a, pol), truth))
+    ctx.need(len(sent) == 1, 'stop element test (a decision on the popped element that leaves the loop) not found in Logger::operator() (%d candidates)' % len(sent))
+    sent_truth = sent[0][1]
+    sent = [sent[0][0]]
     ok_edges = set()
     for br in pops:
         ok_edges |= set(q.atom_edge(cfg, br, False))
-    ok_edges |= set(q.atom_edge(cfg, sent[0], True))
+    ok_edges |= set(q.atom_edge(cfg, sent[0], sent_truth))
     p = q.escape_path(cfg, [cfg.entry], ok_edges)
     ctx.check(p is None, 'R28.2', L + 'operator()#exit.from-entry', op.loc,
               'the consumer cannot return before it has seen the queue empty or popped the stop sentinel',
@@ -85,9 +108,8 @@ def run(ctx):
                 return True
             a, pol = q.polar(cn, lab[1])
             if a == sent[0][1]:
-                return pol is True
-            if any(x.k == 'MemberExpr' and x.decl and x.decl.get('n') == '_stopping' for x in a.walk()) and not any(
-                    x.is_call and x.callee is not None and x.callee.get('n') == 'try_pop' for x in a.walk()):
+                return pol is sent_truth
+            if reads_stop(a) and not any(x.is_call and x.callee is not None and x.callee.get('n') == 'try_pop' for x in a.walk()):
                 return pol is True
             return True
         starts = set()
@@ -116,9 +138,19 @@ def run(ctx):
     ctx.check(sc.dominates(sc.vertex_of(rs[0]), sc.vertex_of(eq[0])) and sc.dominates(sc.vertex_of(eq[0]), sc.vertex_of(jn[0])) and
               q.escape_path(sc, [sc.entry], {sc.vertex_of(jn[0])}) is None,
               'R28.3', L + 'stop#order', st.loc, 'stop(): request_stop ≺ sentinel enqueue ≺ join, join on every path')
-    a0 = eq[0].args[0].strip(casts=True)
-    ctx.check(a0.is_call and not [x for x in a0.args if x.k != 'CXXDefaultArgExpr'], 'R28.3', L + 'stop#sentinel.empty', eq[0].loc,
-              'the sentinel is the empty string the consumer tests for')
+    # the element stop() queues is the one the consumer's stop test recognises, and no logged line can look like it
+    sa = sent[0][1].strip(casts=True)
+    flds = sorted({x.decl['n'] for x in sa.walk() if x.k == 'MemberExpr' and x.decl and x.decl.get('n') in elem_fields})
+    marker_calls = sorted({x.callee_qp for x in sa.walk() if x.is_call and x.callee_qp and x.callee_qp.startswith(L) and x.callee_qp != L + 'operator()'})
+    explicit = [x for x in eq[0].args if x.k != 'CXXDefaultArgExpr']
+    passed = sorted({y.callee_qp for x in explicit for y in x.walk() if y.is_call and y.callee_qp and y.callee_qp.startswith(L)})
+    ctx.check(bool(marker_calls) and set(marker_calls) <= set(passed), 'R28.3', L + 'stop#sentinel.agrees', eq[0].loc,
+              'stop() queues an element carrying %s, which is what the consumer\'s stop test compares with' % (marker_calls or '?'),
+              'the consumer\'s stop test `%s` and the element stop() queues (`%s`) do not refer to a common marker' % (sa.text(), eq[0].text()))
+    ctx.check(flds and not (set(flds) & {'_str', '_level', '_val'}), 'R28.6', L + 'operator()#no-exit-before-stop', sent[0][1].loc,
+              'the stop test reads only %s of the popped element, which a logged line cannot set to the marker' % flds,
+              'the consumer thread leaves its loop on `%s`, i.e. on the %s of the popped element: a logged line with the same content (an empty line) is '
+              'indistinguishable from the stop element, ends the thread, and every line accepted after it is never written' % (sa.text(), '/'.join(flds) or 'content'))
     sd = prog.fn1(L + 'send')
     ctx.saw(sd)
     for c in sd.calls_to(L + 'enqueue'):
@@ -187,24 +219,25 @@ def run(ctx):
                   'the outbound counter is used only when the direction flag is set (otherwise all lines share one consecutive sequence)',
                   'the second sequence counter is advanced at %s without testing the direction flag: a logger without the direction field numbers its lines from two '
                   'interleaved counters' % w.loc)
-    # ---------------- R28.6 while stop has not been requested the consumer never returns (an accepted line - e.g. an empty one - cannot end the thread)
-    def not_stopping(v, w, lab):
-        if lab is None or not isinstance(lab[1], bool):
-            return True
-        c = cfg.cond_node(lab[0])
-        if c is None:
-            return True
-        a, pol = q.polar(c, lab[1])
-        if any(x.k == 'MemberExpr' and x.decl and x.decl.get('n') == '_stopping' for x in a.walk()) and not any(x.is_call and x.callee is not None and
-                x.callee.get('n') in ('try_pop', 'empty') for x in a.walk()):
-            return pol is False
-        return True
-    reach_ns = cfg.reach_from(cfg.entry, edge_ok=not_stopping) | {cfg.entry}
-    early = [n for (v, kind, n) in cfg.exits() if kind in ('return', 'falloff') and v in reach_ns]
-    ctx.check(not early, 'R28.6', L + 'operator()#no-exit-before-stop', op.loc,
-              'the consumer thread cannot return unless stop was requested',
-              'the consumer thread can return although stop was not requested: an accepted line with empty text is indistinguishable from the stop sentinel, ends the '
-              'thread, and every line accepted after it is never written')
+    # ---------------- R28.7 the stop flag that licenses the exit on an empty queue is sampled BEFORE the pop that found it empty:
+    # (line pushed, stop requested) may both happen between a failed pop and a later read of the flag, and the thread would leave the line behind
+    popv = {cfg.block_last[b] for (b, _a, _p) in pops}
+    exits_ = {v for (v, kind, n) in cfg.exits() if kind in ('return', 'falloff')}
+    late_reads = []
+    for br in pops:
+        for s0 in q.atom_edge(cfg, br, False):
+            region = cfg.reach_from(s0, avoid=popv) | {s0}
+            for v in region:
+                nd = cfg.V[v].node
+                if nd is None or nd.k != 'MemberExpr' or not nd.decl or nd.decl.get('n') != '_stopping':
+                    continue
+                if (cfg.reach_from(v, avoid=popv) | {v}) & exits_:
+                    late_reads.append(nd)
+    ctx.check(not late_reads, 'R28.7', L + 'operator()#stop-flag-sampled-before-pop', (late_reads[0].loc if late_reads else op.loc),
+              'no read of the stop flag lies between a failed pop and the return (the flag is sampled before the pop, or the queue is polled again)',
+              'the stop flag is read at %s AFTER try_pop found the queue empty and the thread can return on it without polling again: a line accepted and a stop '
+              'requested in between are both missed (1 line, immediate stop: about 1 round in 1500 loses the line)' % (late_reads[0].loc if late_reads else ''))
+    ctx.floor('R28.7', 1)
     ctx.floor('R28.6', 1)
     ctx.floor('R28.4', 1)
     ctx.floor('R28.5', 1)
